@@ -168,6 +168,25 @@ func init() {
 				return out
 			}})
 	}
+	reg(&Oblig{ID: "RS-fields", Pkg: "utils", Func: "VP_RS_fields", Props: []string{"C17", "C15"},
+		Desc:  "encoders over different fields of the same size, used one after the other in one process (QR 0x11D/0, DataMatrix and Aztec 0x12D/1, 0x11D/1; GF(64) base 1 and 0, GF(16)): each one's check symbols have zero syndromes in its own field whatever the others computed or cached before (exported API only)",
+		Real:  []string{"utils.NewGaloisField", "utils.NewReedSolomonEncoder", "(*utils.ReedSolomonEncoder).Encode", "(*utils.GFPoly).Multiply/Divide/AddOrSubstract"},
+		Stubs: []string{"(*GaloisField).Multiply summarised by the reference product (discharged by GF-mul-*)"},
+		Bound: "3 fields per set x 4 orders x (k,e) in {(2,2),(1,3)} x prior request d0 in {0,3}; symbolic data",
+		Configs: func(tier string, seed int64) []map[string]int {
+			var out []map[string]int
+			for set := 0; set < 2; set++ {
+				for order := 0; order < 4; order++ {
+					for _, ke := range [][2]int{{2, 2}, {1, 3}} {
+						for _, d0 := range []int{0, 3} {
+							out = append(out, map[string]int{"set": set, "order": order, "k": ke[0], "e": ke[1], "d0": d0})
+						}
+					}
+				}
+			}
+			return out
+		},
+		Tune: func(in *exec.Instance, tier string) { in.Redirect = map[string]string{gfMul: "utils:VPGFMulSummary"} }})
 	for _, pk := range []string{"qr", "datamatrix"} {
 		reg(&Oblig{ID: "RS-shared-" + pk, Pkg: pk, Func: "VP_RS_shared", Props: []string{"C17", "C15"}, Desc: "the package-level shared encoder: right field, zero syndromes",
 			Stubs: []string{"(*GaloisField).Multiply summarised by the reference product"}, Bound: "k = 2, e = 3, d0 in {0, 5}",
